@@ -933,4 +933,7 @@ func TestC19(t *testing.T) {
 	c := c19
 	c.Checks = n(8, 60)
 	c.Run(t)
+	w := c19TwinCheck
+	w.Checks = n(6, 80)
+	w.Run(t)
 }
